@@ -244,6 +244,9 @@ impl Server {
         for i in 0..self.batch_size {
             match self.socket.recv_from(&mut self.buf) {
                 Ok((num_bytes, src_addr)) => {
+                    #[cfg(roughenough_verif)]
+                    crate::verif::point("recv", i as i64);
+
                     match request::nonce_from_request(&self.buf, num_bytes, &self.srv_value) {
                         // TODO(stuart) cleanup when RFC is ratified
                         Ok((nonce, Version::RfcDraft13)) => {
